@@ -315,6 +315,8 @@ pub struct MAdapter {
     pub done_t: Option<T>,
     pub dropped_t: Option<(T, T)>,
     pub create_vt: usize,
+    /// spans that the inner object held and finished in its destructor
+    pub held_finished: Vec<usize>,
 }
 
 #[derive(Clone, Debug)]
